@@ -36,6 +36,7 @@ RULES = {
     'P4e': ('rules_recv', 'view: commit only after the closure'),
     'P5a': ('rules_recv', 'ReaderState::Single only for a fresh stream or on the consumers==1 edge after Acquire'),
     'P5b': ('rules_recv', 'plain-store commit only in Single mode (or on the Uni-typed view path)'),
+    'P5d': ('rules_recv', 'the switch to Single reader mode is decided before the position of the attempt is observed'),
     'P5c': ('rules_recv', 'Clone for the receiver raises the consumer count and marks Multi before copying the Reader'),
     'W3': ('rules_recv', 'slot payloads are touched only at the enumerated sites'),
     'W7': ('rules_recv', 'consumer count changed only by +1 (clone) / -1 (drop)'),
@@ -116,7 +117,7 @@ RULES = {
 # breaking any of them shows up as lost / duplicated / reordered / overwritten / torn / double-dropped values, i.e.
 # under several of C01..C06 and C12 at once, so all of those checks evaluate all of them
 DATAPATH = ['P1a', 'P1b', 'P1c', 'P1d', 'P1e', 'P1f', 'P1g', 'P1h', 'P2a', 'P2b', 'P2e', 'P3a', 'P3b', 'P3c', 'P3e', 'P3f', 'P3g', 'P3t',
-            'P4', 'P4a', 'P4e', 'P5a', 'P5b', 'P5c', 'P9b', 'P10a', 'P10b', 'P10f', 'P10g', 'P15', 'P15w', 'S1', 'W1', 'W2', 'W3', 'W5', 'W8',
+            'P4', 'P4a', 'P4e', 'P5a', 'P5b', 'P5c', 'P5d', 'P9b', 'P10a', 'P10b', 'P10f', 'P10g', 'P15', 'P15w', 'S1', 'W1', 'W2', 'W3', 'W5', 'W8',
             'W11', 'W13', 'O1', 'O2']
 
 PROPS = {
